@@ -720,7 +720,7 @@ PROFILES = [{"catch": 1, "scc": 1}, {"catch": 2, "scc": 0.3}, {"catch": 0.5, "sc
 
 
 def gen_cases(rng, tier, seed):
-    n = 900 if tier == "quick" else 12000
+    n = 700 if tier == "quick" else 9000
     cases = []
     for k in range(n):
         cid = "c%d_%d" % (seed, k)
@@ -752,6 +752,23 @@ def compare(iv, mv):
     if iv["ball"] != mv["ball"]:
         d.append("ball")
     return d
+
+
+EV_MISSING = "'existence_error'('procedure','/'('ev',1))"
+
+
+def is_subseq(a, b):
+    it = iter(b)
+    return all(x in it for x in a)
+
+
+def lost_cleanup(iv, mv):
+    """the shape of C12-1: events of the reference are missing on the implementation (the clean-up goal did not
+    run) and/or the clean-up goal `ev(...)` was looked up in the wrong module."""
+    blob = " ".join(iv["events"] + iv["answers"] + [iv["ball"] or ""])
+    if EV_MISSING in blob:
+        return True
+    return len(iv["events"]) < len(mv["events"]) and is_subseq(iv["events"], mv["events"])
 
 
 def views(c, impl, model):
@@ -821,6 +838,10 @@ def run(ctx):
                 samples.append({"program": c["text"], "events": mv["events"], "answers": mv["answers"], "ball": mv["ball"]})
             continue
         sig = {"cls": c["cls"], "part": "+".join(d)}
+        if c["cls"].endswith("noncallable-literal") and iv.get("raw") is None and lost_cleanup(iv, mv):
+            # finding C12-1: the body holding a non-callable literal is left unexpanded, the clean-up goal stays
+            # unqualified and is looked up in iso_ext (existence error, swallowed on the exception path)
+            sig = {"cls": c["cls"], "defect": "cleanup-goal-unqualified-after-abandoned-expansion"}
         detail = ("implementation and reference trace differ in %s.\nprogram:\n%s\nimpl: answers=%s ball=%s\n      events=%s\n"
                   "model: answers=%s ball=%s\n      events=%s marks=%s\nfollow-up: %s" % (
                       "+".join(d), c["text"], iv.get("answers"), iv.get("ball"), iv.get("events"),
